@@ -222,6 +222,30 @@ def two_pipes_one_directory():
                 fails.append(f'two pipes in one directory: the {kind} of link.{tag} received {got[:3]}... instead of its own peer\'s objects')
 
 
+def two_applications_one_process():
+    """two SocketApplication objects in one process, both with a '/' route (as the docs suggest): each answers with ITS OWN handler"""
+    async def double(x):
+        return ('A', x * 2)
+
+    async def negate(x):
+        return ('B', -x)
+
+    async def info():
+        return 'A-info'
+    a, b = SocketApplication(), SocketApplication()
+    a.add_route('/', double)
+    a.add_route('/info', info)
+    b.add_route('/', negate)
+    ra, rb = asyncio.run(a.handle_request('/', 5)), asyncio.run(b.handle_request('/', 5))
+    if ra != ('A', 10) or rb != ('B', -5):
+        fails.append(f"two applications in one process: '/' of A answered {ra!r}, '/' of B answered {rb!r}")
+    try:
+        r = asyncio.run(b.handle_request('/info', None))
+        fails.append(f"application B answered a route only A registered: {r!r}")
+    except Exception:       # noqa: BLE001
+        pass
+
+
 if __name__ == '__main__':
     try:
         t = threading.Thread(target=socket_battery, daemon=True)
@@ -232,6 +256,7 @@ if __name__ == '__main__':
         else:
             pipe_battery()
             two_pipes_one_directory()
+            two_applications_one_process()
     finally:
         shutil.rmtree(tmp, ignore_errors=True)
     if fails:
